@@ -246,6 +246,9 @@ def gas_table_cases():
     for code in (1, 2, 3, 4):
         cases.append(("leeds", dict(base, code=code, a=2.5e-9, b=-0.5, c=12.5, tmin=10.0, tmax=41000.0,
                                     r=["CO"] + ({2: ["CRP"], 3: ["CRPHOT"], 4: ["PHOTON"]}.get(code, ["He+"])))))
+    # Leeds types the exchange format has no code for (the direct rendering gives them the rate 0): refused by the writer, or still 0 afterwards
+    for code in (15, 16, 19):
+        cases.append(("leeds", dict(base, code=code, a=2.5e-9, b=-0.5, c=12.5, tmin=10.0, tmax=41000.0)))
     for code in ("MA", "CRP", "PHOTON", "CRPHOT"):
         cases.append(("uclchem", dict(base, code=code, r=["CO", "He+"] if code == "MA" else ["CO"])))
     for code in (100, 101, 102, 110, 111, 120):
@@ -368,7 +371,11 @@ def main(ctx: Ctx) -> int:
         def r2():
             state["n3"] = Network(filelist=str(d / "f2.naunet"), fileformats="naunet")
             return obs_net(state["n3"])
-        if step("Write1", w1)["ok"] and step("Read1", r1)["ok"]:
+        e1 = step("Write1", w1)
+        if not e1["ok"] and any(h["ty"] == -1 for h in header):
+            # (the writer refused a network that holds a reaction without a native type code: allowed, and nothing further to compare)
+            ev[-1] = {"act": "WriteRefused", "err": e1["err"]}
+        if e1["ok"] and step("Read1", r1)["ok"]:
             if ti % 2 == 1 and state["n2"].reaction_list and not origin.startswith("table"):     # (the table cases all go on to the law comparison)
                 k = rng.randrange(len(state["n2"].reaction_list))
                 newa = rng.choice([9.87e-10, -1.5e-3, 4.0])
